@@ -32,7 +32,7 @@ TD = os.path.join(common.WORK, "kani_arm64_td")        # kani target dirs, one p
 NATIVE_TD = os.path.join(common.WORK, "kani_arm64_native")
 LLVM_MC = shutil.which("llvm-mc-14") or shutil.which("llvm-mc")
 
-KANI_FLAGS = ["-Z", "unstable-options", "--no-memory-safety-checks", "--no-assertion-reach-checks"]
+KANI_FLAGS = ["-Z", "unstable-options", "-Z", "stubbing", "--no-memory-safety-checks", "--no-assertion-reach-checks"]
 MEM_LIMIT = int(os.environ.get("VERIF_KANI_MEM_GB", "10")) << 30
 HARNESS_TIMEOUT = os.environ.get("VERIF_KANI_TIMEOUT", "900")   # seconds per harness
 
